@@ -286,3 +286,17 @@ class NativeHandler(Val):
 
     def __init__(self, fn):
         self.fn = fn
+
+
+class SymDict(Val):
+    """Mutable dict with symbolic initial content (base) and a write log.  Keys are compared by the
+    z3 identity of their lifted terms (A-EQ-KEY: a look-up with an equal key is a look-up with that key).
+    inv: optional callable(I, key Val, value Val) assuming the dict invariant for an entry found in base."""
+    __slots__ = ("base", "writes", "inv", "name", "removed")
+
+    def __init__(self, base=None, inv=None, name="dict"):
+        self.base = base
+        self.writes = []
+        self.inv = inv
+        self.name = name
+        self.removed = []
